@@ -33,6 +33,16 @@ type Mutex struct {
 func (m *Mutex) Lock() {
 	if schedOn {
 		mLock(&m.model)
+		m.real.Lock()
+		return
+	}
+	if Active {
+		// one goroutine only: a lock that cannot be taken now will never be released
+		if !m.real.TryLock() {
+			seqBlocked()
+		}
+		seqHeld++
+		return
 	}
 	m.real.Lock()
 }
@@ -54,6 +64,8 @@ func (m *Mutex) Unlock() {
 	m.real.Unlock()
 	if schedOn {
 		mUnlock(&m.model)
+	} else if Active {
+		seqHeld--
 	}
 }
 
@@ -67,6 +79,15 @@ type RWMutex struct {
 func (m *RWMutex) Lock() {
 	if schedOn {
 		mLock(&m.model)
+		m.real.Lock()
+		return
+	}
+	if Active {
+		if !m.real.TryLock() {
+			seqBlocked()
+		}
+		seqHeld++
+		return
 	}
 	m.real.Lock()
 }
@@ -75,12 +96,23 @@ func (m *RWMutex) Unlock() {
 	m.real.Unlock()
 	if schedOn {
 		mUnlock(&m.model)
+	} else if Active {
+		seqHeld--
 	}
 }
 
 func (m *RWMutex) RLock() {
 	if schedOn {
 		mRLock(&m.model)
+		m.real.RLock()
+		return
+	}
+	if Active {
+		if !m.real.TryRLock() {
+			seqBlocked()
+		}
+		seqHeld++
+		return
 	}
 	m.real.RLock()
 }
@@ -89,6 +121,8 @@ func (m *RWMutex) RUnlock() {
 	m.real.RUnlock()
 	if schedOn {
 		mRUnlock(&m.model)
+	} else if Active {
+		seqHeld--
 	}
 }
 
@@ -125,6 +159,25 @@ type rlocker RWMutex
 
 func (r *rlocker) Lock()   { (*RWMutex)(r).RLock() }
 func (r *rlocker) Unlock() { (*RWMutex)(r).RUnlock() }
+
+// seqHeld counts locks held in sequential (unscheduled) simulated executions.
+var seqHeld int
+
+// SeqHeldLocks returns the number of locks taken and not released outside a schedule.
+//
+//go:norace
+func SeqHeldLocks() int { return seqHeld }
+
+// ResetSeqHeld forgets the sequential lock count (a new execution starts).
+//
+//go:norace
+func ResetSeqHeld() { seqHeld = 0 }
+
+// seqBlocked: the only goroutine of a sequential execution wants a lock that is held —
+// by an earlier execution that leaked it, or by itself. It can never proceed.
+func seqBlocked() {
+	panic(Deadlock{Blocked: 1})
+}
 
 // heldLocks counts lock grants that have not been released yet (under the
 // scheduler). A non-zero value when all goroutines have finished is a leaked lock.
